@@ -1620,6 +1620,24 @@ def gen_tracked_circuit(rng, width, ncmds, opts=None):
                 after_add(n, args, outs, post)
             g.emit(["extend", t, names, coms])
             r.pool.extend(post)
+        elif x < 0.63:
+            args, tys_ = gate_args(rng.randint(1, 3))
+            if args:
+                k = rng.randrange(len(args))  # outputs only for the first k arguments
+                outs = list(tys_[:k])
+                n = g.fn()
+                g.emit(["add", t, n, g.custom(tys_, outs, rng.choice(["measure", "discard"])), args, g.meta()])
+                for pos, a in enumerate(args):
+                    if pos < k:
+                        nw = Wire(["out", n, pos], outs[pos])
+                        if isinstance(a, int):
+                            nw.used = True
+                            table[a] = nw
+                        r.pool.append(nw)
+                    elif isinstance(a, int):
+                        # the index now names a port the node does not have: given up right away
+                        g.emit(["untrack_wire", t, a])
+                        table[a] = None
         elif x < 0.68:
             b = [i for i in live if teq(table[i].t, BOOL)]
             if b:
@@ -1639,7 +1657,18 @@ def gen_tracked_circuit(rng, width, ncmds, opts=None):
                 else:
                     g.emit(["track_wires", t, [w.w for w in ws]])
                 table.extend(ws)
+        elif x < 0.78 and [i for i in live if copyable(table[i].t)]:
+            # a copyable wire that is already tracked is tracked again: it gets a FRESH index (fan-out)
+            i = rng.choice([i for i in live if copyable(table[i].t)])
+            g.emit(["track_wire", t, table[i].w])
+            table.append(table[i])
         elif x < 0.8 and not table and not ti:
+            g.emit(["track_inputs", t])
+            for w in r.pool[: len(types)]:
+                w.used = True
+                table.append(w)
+        elif x < 0.805 and all(copyable(ty) for ty in types) and types:
+            # the inputs tracked (again): fresh indices n..2n-1
             g.emit(["track_inputs", t])
             for w in r.pool[: len(types)]:
                 w.used = True
